@@ -673,6 +673,10 @@ func RunC10(c *Ctx, r *Report) {
 		good := len(vals) == 3 && vals[16] && vals[24] && vals[32]
 		r.Check(good, rule3, "registered AES key lengths", "-", "{16, 24, 32}", fmt.Sprintf("registered key lengths are not exactly 16/24/32 (range %d..%d)", lo, hi))
 	}
+	// "every key of the negotiated size": the descriptor a negotiated transform resolves to is the one registered
+	// for that size, and each registered descriptor is an object of its own (C11's registry rules, encr only)
+	c.registryRules(r, prefix+"registry.", "security/encr")
+	c.libraryObjectRule(r, prefix+"key-objects-are-library-objects")
 	// rule 4
 	c.pkcs7Rules(r, prefix)
 	// rule 5
